@@ -1,0 +1,318 @@
+//go:build verif
+
+package main
+
+// Verification hooks (build tag "verif"). They only observe: when
+// PINT_VERIF_DUMP names a file every discovered entry, every dispatched
+// (entry, check) job, the arrival order of reports and the final report list
+// are appended to it as JSON lines. PINT_VERIF_JITTER=<seed> makes every
+// job sleep a seed-determined 0-2ms before its results are sent, so report
+// arrival orders differ between runs.
+
+import (
+	"encoding/json"
+	"hash/fnv"
+	"os"
+	"strconv"
+	"sync"
+	"time"
+
+	"github.com/cloudflare/pint/internal/checks"
+	"github.com/cloudflare/pint/internal/comments"
+	"github.com/cloudflare/pint/internal/diags"
+	"github.com/cloudflare/pint/internal/discovery"
+	"github.com/cloudflare/pint/internal/parser"
+	"github.com/cloudflare/pint/internal/reporter"
+)
+
+var (
+	verifMu   sync.Mutex
+	verifFile *os.File
+	verifOnce sync.Once
+)
+
+func verifOut() *os.File {
+	verifOnce.Do(func() {
+		if p := os.Getenv("PINT_VERIF_DUMP"); p != "" {
+			verifFile, _ = os.OpenFile(p, os.O_CREATE|os.O_WRONLY|os.O_APPEND, 0o644)
+		}
+	})
+	return verifFile
+}
+
+func verifWrite(v any) {
+	f := verifOut()
+	if f == nil {
+		return
+	}
+	b, err := json.Marshal(v)
+	if err != nil {
+		b, _ = json.Marshal(map[string]string{"kind": "error", "err": err.Error()})
+	}
+	verifMu.Lock()
+	_, _ = f.Write(append(b, '\n'))
+	verifMu.Unlock()
+}
+
+type verifNode struct {
+	Value string               `json:"value"`
+	Pos   diags.PositionRanges `json:"pos"`
+}
+
+type verifKV struct {
+	Key   verifNode `json:"key"`
+	Value verifNode `json:"value"`
+}
+
+type verifComment struct {
+	Type   int    `json:"type"`
+	Value  string `json:"value"`
+	Offset int    `json:"offset"`
+}
+
+type verifRule struct {
+	Type          string         `json:"type"`
+	Name          string         `json:"name"`
+	First         int            `json:"first"`
+	Last          int            `json:"last"`
+	ErrLine       int            `json:"err_line,omitempty"`
+	Err           string         `json:"err,omitempty"`
+	ErrDetails    string         `json:"err_details,omitempty"`
+	NameNode      *verifNode     `json:"name_node,omitempty"`
+	Expr          *verifNode     `json:"expr,omitempty"`
+	SyntaxError   string         `json:"syntax_error,omitempty"`
+	For           *verifNode     `json:"for,omitempty"`
+	KeepFiringFor *verifNode     `json:"keep_firing_for,omitempty"`
+	LabelsKey     *verifNode     `json:"labels_key,omitempty"`
+	Labels        []verifKV      `json:"labels,omitempty"`
+	AnnotationKey *verifNode     `json:"annotations_key,omitempty"`
+	Annotations   []verifKV      `json:"annotations,omitempty"`
+	Comments      []verifComment `json:"comments,omitempty"`
+}
+
+func verifMkNode(n *parser.YamlNode) *verifNode {
+	if n == nil {
+		return nil
+	}
+	return &verifNode{Value: n.Value, Pos: n.Pos}
+}
+
+func verifMkMap(m *parser.YamlMap) (key *verifNode, kvs []verifKV) {
+	if m == nil {
+		return nil, nil
+	}
+	key = verifMkNode(m.Key)
+	for _, it := range m.Items {
+		kv := verifKV{}
+		if it.Key != nil {
+			kv.Key = *verifMkNode(it.Key)
+		}
+		if it.Value != nil {
+			kv.Value = *verifMkNode(it.Value)
+		}
+		kvs = append(kvs, kv)
+	}
+	return key, kvs
+}
+
+func verifMkComments(cs []comments.Comment) (out []verifComment) {
+	for _, c := range cs {
+		vc := verifComment{Type: int(c.Type), Offset: c.Offset}
+		if c.Value != nil {
+			vc.Value = c.Value.String()
+		}
+		out = append(out, vc)
+	}
+	return out
+}
+
+func verifMkRule(r parser.Rule) verifRule {
+	vr := verifRule{
+		Type:       string(r.Type()),
+		Name:       r.Name(),
+		First:      r.Lines.First,
+		Last:       r.Lines.Last,
+		ErrLine:    r.Error.Line,
+		ErrDetails: r.Error.Details,
+		Comments:   verifMkComments(r.Comments),
+	}
+	if r.Error.Err != nil {
+		vr.Err = r.Error.Err.Error()
+	}
+	if r.RecordingRule != nil {
+		vr.NameNode = verifMkNode(&r.RecordingRule.Record)
+		vr.Expr = verifMkNode(r.RecordingRule.Expr.Value)
+		if r.RecordingRule.Expr.SyntaxError != nil {
+			vr.SyntaxError = r.RecordingRule.Expr.SyntaxError.Error()
+		}
+		vr.LabelsKey, vr.Labels = verifMkMap(r.RecordingRule.Labels)
+	}
+	if r.AlertingRule != nil {
+		vr.NameNode = verifMkNode(&r.AlertingRule.Alert)
+		vr.Expr = verifMkNode(r.AlertingRule.Expr.Value)
+		if r.AlertingRule.Expr.SyntaxError != nil {
+			vr.SyntaxError = r.AlertingRule.Expr.SyntaxError.Error()
+		}
+		vr.For = verifMkNode(r.AlertingRule.For)
+		vr.KeepFiringFor = verifMkNode(r.AlertingRule.KeepFiringFor)
+		vr.LabelsKey, vr.Labels = verifMkMap(r.AlertingRule.Labels)
+		vr.AnnotationKey, vr.Annotations = verifMkMap(r.AlertingRule.Annotations)
+	}
+	return vr
+}
+
+type verifEntry struct {
+	Kind           string    `json:"kind"`
+	Index          int       `json:"index"`
+	Path           string    `json:"path"`
+	Target         string    `json:"target"`
+	State          string    `json:"state"`
+	Owner          string    `json:"owner,omitempty"`
+	PathError      string    `json:"path_error,omitempty"`
+	ModifiedLines  []int     `json:"modified_lines"`
+	DisabledChecks []string  `json:"disabled_checks,omitempty"`
+	GroupName      string    `json:"group_name,omitempty"`
+	GroupLabels    []verifKV `json:"group_labels,omitempty"`
+	TotalLines     int       `json:"total_lines"`
+	Rule           verifRule `json:"rule"`
+}
+
+func verifEntries(entries []discovery.Entry) {
+	if verifOut() == nil {
+		return
+	}
+	for i, e := range entries {
+		ve := verifEntry{
+			Kind:           "entry",
+			Index:          i,
+			Path:           e.Path.Name,
+			Target:         e.Path.SymlinkTarget,
+			State:          e.State.String(),
+			Owner:          e.Owner,
+			ModifiedLines:  e.ModifiedLines,
+			DisabledChecks: e.DisabledChecks,
+			Rule:           verifMkRule(e.Rule),
+		}
+		if e.PathError != nil {
+			ve.PathError = e.PathError.Error()
+		}
+		if e.Group != nil {
+			ve.GroupName = e.Group.Name
+			_, ve.GroupLabels = verifMkMap(e.Group.Labels)
+		}
+		if e.File != nil {
+			ve.TotalLines = e.File.TotalLines
+		}
+		verifWrite(ve)
+	}
+}
+
+type verifDiag struct {
+	Message string               `json:"message"`
+	Pos     diags.PositionRanges `json:"pos"`
+	First   int                  `json:"first"`
+	Last    int                  `json:"last"`
+}
+
+type verifReport struct {
+	Kind          string      `json:"kind"`
+	Index         int         `json:"index"`
+	Path          string      `json:"path"`
+	Target        string      `json:"target"`
+	Owner         string      `json:"owner,omitempty"`
+	ModifiedLines []int       `json:"modified_lines"`
+	RuleName      string      `json:"rule_name"`
+	RuleType      string      `json:"rule_type"`
+	RuleFirst     int         `json:"rule_first"`
+	RuleLast      int         `json:"rule_last"`
+	Reporter      string      `json:"reporter"`
+	Summary       string      `json:"summary"`
+	Details       string      `json:"details,omitempty"`
+	Severity      string      `json:"severity"`
+	First         int         `json:"first"`
+	Last          int         `json:"last"`
+	Anchor        int         `json:"anchor"`
+	Diagnostics   []verifDiag `json:"diagnostics,omitempty"`
+	IsDuplicate   bool        `json:"is_duplicate"`
+	Duplicates    int         `json:"duplicates"`
+}
+
+func verifMkReport(kind string, i int, r reporter.Report) verifReport {
+	vr := verifReport{
+		Kind:          kind,
+		Index:         i,
+		Path:          r.Path.Name,
+		Target:        r.Path.SymlinkTarget,
+		Owner:         r.Owner,
+		ModifiedLines: r.ModifiedLines,
+		RuleName:      r.Rule.Name(),
+		RuleType:      string(r.Rule.Type()),
+		RuleFirst:     r.Rule.Lines.First,
+		RuleLast:      r.Rule.Lines.Last,
+		Reporter:      r.Problem.Reporter,
+		Summary:       r.Problem.Summary,
+		Details:       r.Problem.Details,
+		Severity:      r.Problem.Severity.String(),
+		First:         r.Problem.Lines.First,
+		Last:          r.Problem.Lines.Last,
+		Anchor:        int(r.Problem.Anchor),
+		IsDuplicate:   r.IsDuplicate,
+		Duplicates:    len(r.Duplicates),
+	}
+	for _, d := range r.Problem.Diagnostics {
+		vr.Diagnostics = append(vr.Diagnostics, verifDiag{Message: d.Message, Pos: d.Pos, First: d.FirstColumn, Last: d.LastColumn})
+	}
+	return vr
+}
+
+func verifSummary(summary reporter.Summary) {
+	if verifOut() == nil {
+		return
+	}
+	for i, r := range summary.Reports() {
+		verifWrite(verifMkReport("report", i, r))
+	}
+	verifWrite(map[string]any{"kind": "summary_done", "reports": len(summary.Reports())})
+}
+
+var verifArrivalSeq int
+
+// verifArrival is called from the single goroutine draining the results channel.
+func verifArrival(r reporter.Report) {
+	if verifOut() == nil {
+		return
+	}
+	verifArrivalSeq++
+	verifWrite(verifMkReport("arrival", verifArrivalSeq, r))
+}
+
+func verifDispatch(entry discovery.Entry, check checks.RuleChecker) {
+	if verifOut() == nil {
+		return
+	}
+	verifWrite(map[string]any{
+		"kind":     "dispatch",
+		"path":     entry.Path.Name,
+		"state":    entry.State.String(),
+		"name":     entry.Rule.Name(),
+		"first":    entry.Rule.Lines.First,
+		"last":     entry.Rule.Lines.Last,
+		"check":    check.String(),
+		"reporter": check.Reporter(),
+		"online":   check.Meta().Online,
+	})
+}
+
+func verifJitter(job scanJob) {
+	s := os.Getenv("PINT_VERIF_JITTER")
+	if s == "" {
+		return
+	}
+	seed, _ := strconv.ParseUint(s, 10, 64)
+	h := fnv.New64a()
+	_, _ = h.Write([]byte(job.entry.Path.Name))
+	_, _ = h.Write([]byte(strconv.Itoa(job.entry.Rule.Lines.First)))
+	_, _ = h.Write([]byte(job.check.String()))
+	_, _ = h.Write([]byte(strconv.FormatUint(seed, 10)))
+	time.Sleep(time.Duration(h.Sum64()%2000) * time.Microsecond)
+}
